@@ -323,6 +323,15 @@ func bufLenTerm(p *Prog, t *termer, v ssa.Value) string {
 		if _, lo, hi, ok := sliceOfLocalConst(x); ok && hi >= 0 {
 			return fmt.Sprint(hi - lo)
 		}
+		if x.Low == nil && x.High != nil {
+			// buf[:n] (or buf[:n:n]): n bytes
+			if _, isK := intConst(x.High); !isK {
+				if cv, ok := unspill(x.High).(*ssa.Convert); ok {
+					return t.Term(cv.X)
+				}
+				return t.Term(x.High)
+			}
+		}
 	case *ssa.MakeSlice:
 		if k, ok := intConst(x.Len); ok {
 			return fmt.Sprint(k)
@@ -344,38 +353,28 @@ func c14PadKeys(c *Ctx, p *Prog, hs *ssa.Function, tC string) {
 	}
 	ff := p.Facts(hs)
 	got := map[string]string{}
-	for i, call := range calls {
-		// label: phi over role
-		lab := unspill(call.Common().Args[0])
-		ph, ok := lab.(*ssa.Phi)
-		if !ok {
-			ob.Violate("the pad label is not role-dependent")
-			return
-		}
-		for j, e := range ph.Edges {
-			pred := ph.Block().Preds[j]
-			role := ""
-			fs := append([]Fact{}, ff.NC(pred)...)
-			if ef, ok := edgeFact(pred, ph.Block()); ok {
-				fs = append(fs, ef)
-			}
-			for _, f := range fs {
-				if isFieldLoad(f.Cond, tC, "isInitiator") {
-					if f.Pol {
-						role = "initiator"
-					} else {
-						role = "responder"
-					}
-				}
-			}
+	for _, call := range calls {
+		// label and seed under each role (phis resolved by the role's branch); the direction is told by
+		// the seed: the own seed is CSPRNG output, the peer's is read from the connection
+		for _, role := range []string{"initiator", "responder"} {
 			t := p.newTermer()
-			dir := "tx"
-			if i == 1 {
-				dir = "rx"
+			t.at = call
+			t.resolvePhi = roleResolver(ff, tC, role == "initiator")
+			lab := t.Term(call.Common().Args[0])
+			seed := t.Term(call.Common().Args[1])
+			if len(t.errs) > 0 || strings.Contains(lab, "phi(") {
+				ob.Violate("the pad label at %s is not determined by the role (%s; %s)", p.InstrPos(call), lab, strings.Join(t.errs, "; "))
+				return
 			}
-			tt := p.newTermer()
-			tt.at = call
-			got[role+"."+dir] = t.Term(e) + " over " + tt.Term(call.Common().Args[1])
+			dir := "rx"
+			if seed == "random" {
+				dir = "tx"
+			}
+			if _, dup := got[role+"."+dir]; dup {
+				ob.Violate("two pad keys for direction %s", dir)
+				return
+			}
+			got[role+"."+dir] = lab + " over " + seed
 		}
 	}
 	want := map[string]string{
